@@ -74,23 +74,24 @@ def _array_for(cfg, G):
     return objs
 
 
-def _mtag_for(objs, L, oned):
-    """A multi-tag with R positions of length L (position / extent arrays 1-D iff oned)."""
+def _mtag_for(objs, L, oned, intpos=False):
+    """A multi-tag with R positions of length L (position / extent arrays 1-D iff oned; positions stored as int64 iff intpos)."""
     nixio = _W["nixio"]
-    k = (L, oned)
+    k = (L, oned, intpos)
     if k in objs["mtags"]:
         return objs["mtags"][k]
     blk, R = objs["blk"], objs["R"]
     shp = (R,) if oned else (R, L)
-    pos = blk.create_data_array("pos%d%d" % k, "t", data=np.zeros(shp))
-    ext = blk.create_data_array("ext%d%d" % k, "t", data=np.zeros(shp))
-    mt = blk.create_multi_tag("mt%d%d" % k, "t", pos)
+    k = (L, int(oned), int(intpos))
+    pos = blk.create_data_array("pos%d%d%d" % k, "t", data=np.zeros(shp, dtype=np.int64 if intpos else np.float64))
+    ext = blk.create_data_array("ext%d%d%d" % k, "t", data=np.zeros(shp))
+    mt = blk.create_multi_tag("mt%d%d%d" % k, "t", pos)
     mt.references.append(objs["da"])
     mt.create_feature(objs["fa"], nixio.LinkType.Tagged)
     mt.create_feature(objs["ia"], nixio.LinkType.Indexed)
     mt.create_feature(objs["ua"], nixio.LinkType.Untagged)
-    objs["mtags"][k] = (mt, pos, ext)
-    return objs["mtags"][k]
+    objs["mtags"][(L, oned, intpos)] = (mt, pos, ext)
+    return objs["mtags"][(L, oned, intpos)]
 
 
 def _exact_tag_numbers(x, e, G, s):
@@ -207,6 +208,10 @@ def replay_one(vec):
     tag.extent = ext if has_ext else None
     tag.units = units if anyunit else None
     judge("tag", lambda: tag.tagged_data(0, rule), want, r["outcome"])
+    # the same live Tag object after a dimension of the referenced array was re-described in another prefix: the
+    # coordinates keep their numbers, so the tag's numbers change with the scale and the selected samples stay
+    if anyunit and r["outcome"] == "data" and rnd.random() < 0.2:
+        _redescribed(objs, cfg, t, r, G, U, tag, rule, judge, want, res)
     feats = rnd.random() < 0.25
     if feats:
         judge("tag_feature_tagged", lambda: tag.feature_data(0, rule), None if want is None else -want, r["outcome"])
@@ -214,9 +219,11 @@ def replay_one(vec):
     # ---- MultiTag: the same region as row k of R positions ----
     R = objs["R"]
     oned = (L == 1 and rnd.random() < 0.5)
-    mt, pda, eda = _mtag_for(objs, L, oned)
+    # positions that are whole numbers are also stored in an integer-typed positions array (extents stay fractional)
+    intpos = all(float(p).is_integer() for p in pos) and rnd.random() < 0.5
+    mt, pda, eda = _mtag_for(objs, L, oned, intpos)
     k = rnd.randrange(R)
-    rows = np.array([[rnd.choice([0.0, 0.25, 1.0, 2.5]) for _ in range(L)] for _ in range(R)])
+    rows = np.array([[rnd.choice([0.0, 1.0, 2.0] if intpos else [0.0, 0.25, 1.0, 2.5]) for _ in range(L)] for _ in range(R)])
     erows = np.array([[rnd.choice([0.0, 0.5, 1.0]) for _ in range(L)] for _ in range(R)])
     rows[k] = pos
     if has_ext:
@@ -233,13 +240,53 @@ def replay_one(vec):
     elif not has_ext and cur is not None:
         mt.extents = None
     mt.units = units if anyunit else None
-    lab = "mtag1d" if oned else "mtag"
+    lab = ("mtag1d" if oned else "mtag") + ("_intpos" if intpos else "")
     judge(lab, lambda: mt.tagged_data(k, 0, rule), want, r["outcome"])
     if feats:
         judge(lab + "_feature_tagged", lambda: mt.feature_data(k, 0, rule), None if want is None else -want, r["outcome"])
         judge(lab + "_feature_indexed", lambda: mt.feature_data(k, 1, rule), objs["ia"][:][k:k + 1], "data")
         judge(lab + "_feature_untagged", lambda: mt.feature_data(k, 2, rule), objs["ua"][:], "data")
     return res
+
+
+OTHER_PREFIX = {"": "m", "m": "u", "u": "m", "k": ""}
+
+
+def _redescribed(objs, cfg, t, r, G, U, tag, rule, judge, want, res):
+    L = len(t["pos"])
+    dims = list(objs["da"].dimensions)
+    newunits, newpos, newext = {}, [], []
+    for i in range(L):
+        tu, du = r["tagunits"][i], r["dimunits"][i]
+        if not (tu and du):
+            nums = _exact_tag_numbers(t["pos"][i], t["ext"][i], G, 1.0)
+        else:
+            uc = cfg[i]["uc"]
+            nd = OTHER_PREFIX[uc["dp"]] + uc["du"]
+            s = float(U.scaling(tu, nd))
+            nums = _exact_tag_numbers(t["pos"][i], t["ext"][i], G, s)
+            newunits[i] = nd
+        if nums is None:
+            return
+        newpos.append(nums[0])
+        newext.append(nums[1])
+    if not newunits:
+        return
+    old = {i: dims[i].unit for i in newunits}
+    oldpos, oldext = list(tag.position), (list(tag.extent) or None)
+    try:
+        for i, nd in newunits.items():
+            dims[i].unit = nd
+        tag.position = newpos
+        if newext[0] is not None:
+            tag.extent = newext
+        res["redescribed"] = res.get("redescribed", 0) + 1
+        judge("tag_after_dimension_unit_change", lambda: tag.tagged_data(0, rule), want, "data")
+    finally:
+        for i, u in old.items():
+            dims[i].unit = u
+        tag.position = oldpos
+        tag.extent = oldext
 
 
 def label(vec):
